@@ -270,7 +270,7 @@ Section History.
   (* one instruction through a handle of the current mocker *)
   Lemma inv_op s last o : Inv s last -> ok s (HOp o) -> Inv (mstep ntargets s o) (ref_step ntargets s last o).
   Proof.
-    intros I Hok. destruct o as [b t|h k|h r|h v r|h|b|b p|b]; cbn [ok] in Hok; cbn [mstep ref_step].
+    intros I Hok. destruct o as [b t|h k|h r|h v r|h|b|b p|b|h]; cbn [ok] in Hok; cbn [mstep ref_step].
     - destruct Hok as [Hb Hlt]. apply inv_lookup; assumption.
     - destruct Hok as (id & m & Hh & Hm & Hc). rewrite Hh, Hm.
       apply (inv_update s last id m); try assumption; try reflexivity; try (intros; now apply upd_other).
@@ -296,6 +296,7 @@ Section History.
     - destruct Hok as (id & m & Hh & Hm & Hc). rewrite Hh, Hm. apply inv_cancel; assumption.
     - apply inv_reset. exact I.
     - destruct I; split; assumption.
+    - exact I.
     - exact I.
   Qed.
 
